@@ -18,6 +18,7 @@ from vf.refs import mbi_rom
 
 ID = "C02"
 ROTATING_PKI = 0.3  # fraction of the key / certificate paths that are rotating slots (vf/pki.py)
+DECOY_CWD = True  # the worker runs in a directory that holds other bytes under every input file name (vf/worker.py)
 LEVEL = "exploration"
 TECHNIQUE = ("runtime monitoring: independent ROM acceptance model (pure-Python RSA/ECDSA/AES/CRC) on exported bytes + "
              "M-SIGN hook on the signature provider + single-bit-flip coverage sweep")
